@@ -83,3 +83,43 @@ fn item_of_exactly_capacity_is_tracked_after_reopen() {
     let (n, b) = files(root.path());
     assert_eq!((c.num_items().unwrap(), c.total_bytes().unwrap()), (n, b), "C13 violated: after re-opening with the same capacity the cache tracks {} items / {} bytes but the directory holds {n} files / {b} bytes", c.num_items().unwrap(), c.total_bytes().unwrap());
 }
+
+/// Re-open with a capacity small enough that the directory scan stops early: the counters must describe exactly the items
+/// the cache tracks.  Observable through the public API: when every file is deleted behind the cache's back and every
+/// range is read (self-healing removes each tracked item), both counters must come down to exactly zero, without a panic.
+#[test]
+fn reopen_counters_match_tracked_items() {
+    let root = tempfile::tempdir().unwrap();
+    let chunk = 1000usize;
+    let keys: Vec<Key> = (0..6u64).map(|i| Key { prefix: "default".into(), hash: MerkleHash::from([40 + i, 1, 2, 3]) }).collect();
+    {
+        let c = DiskCache::initialize(&CacheConfig { cache_directory: root.path().to_path_buf(), cache_size: 1 << 20, ..Default::default() }).unwrap();
+        for k in &keys {
+            put(&c, k, 0, 2, chunk);
+        }
+    }
+    let (n_files, n_bytes) = files(root.path());
+    assert_eq!(n_files, 6);
+    let one = n_bytes / 6;
+    for cap in [one, one + 1, 2 * one, 3 * one - 1, 3 * one, 1 << 20] {
+        let c = DiskCache::initialize(&CacheConfig { cache_directory: root.path().to_path_buf(), cache_size: cap, ..Default::default() }).unwrap();
+        let (n0, b0) = (c.num_items().unwrap(), c.total_bytes().unwrap());
+        assert_eq!(b0, n0 as u64 * one, "C13 violated: after a re-open with capacity {cap} the cache counts {n0} items but {b0} bytes ({one} bytes per item)");
+        // hide the files, read everything (each tracked item is found missing and dropped), then put the files back
+        let hidden = root.path().with_extension("hidden");
+        std::fs::rename(root.path(), &hidden).unwrap();
+        std::fs::create_dir_all(root.path()).unwrap();
+        let r = std::panic::catch_unwind(std::panic::AssertUnwindSafe(|| {
+            for k in &keys {
+                let _ = c.get(k, &ChunkRange { start: 0, end: 2 });
+            }
+            (c.num_items().unwrap(), c.total_bytes().unwrap())
+        }));
+        std::fs::remove_dir_all(root.path()).unwrap();
+        std::fs::rename(&hidden, root.path()).unwrap();
+        match r {
+            Ok((n1, b1)) => assert_eq!((n1, b1), (0, 0), "C13 violated: after a re-open with capacity {cap} and the removal of every tracked item the counters read {n1} items / {b1} bytes"),
+            Err(_) => panic!("C13 violated: after a re-open with capacity {cap} removing the tracked items panics (counter underflow)"),
+        }
+    }
+}
